@@ -349,6 +349,21 @@ func VerifAacAus() {
 	dp := verifNewAac(w)
 	p := &Packet{Channel: ChannelAudio, Data: pkt}
 	p.Timestamp = symapi.Uint32("ts")
+	// the packet may arrive cut short (or be one fragment of a larger AU): an AU whose
+	// announced size exceeds the bytes present must not be emitted, neither short nor padded
+	if cut := symapi.IntRange("truncatedBy", 0, 2); cut > 0 {
+		if cut > len(aus[a-1]) {
+			return
+		}
+		p.Data = pkt[:len(pkt)-cut]
+		dp.Depacketize(p)
+		symapi.Assert(len(w.frames) < a, "truncated-au-never-emitted")
+		for i := 0; i < len(w.frames); i++ {
+			symapi.Assert(verifEqBytes(w.frames[i].Payload, aus[i]), "aus-before-the-truncation-identical")
+		}
+		symapi.Reach("truncated")
+		return
+	}
 	dp.Depacketize(p)
 	symapi.Assert(len(w.frames) == a, "aac-frame-count")
 	for i := 0; i < a && i < len(w.frames); i++ {
@@ -369,4 +384,51 @@ func VerifH264FuTwin() {
 		dp.Depacketize(verifPkt(fr, uint16(i), 0))
 	}
 	symapi.Assert(len(w.frames) == 1 && w.frames[0].Payload[0] == frags[0][1], "twin-wrong-header")
+}
+
+// verifSR builds an RTCP sender report carrying the given NTP seconds and RTP time.
+func verifSR(ntpSec uint32, rtpTime uint32) *Packet {
+	d := make([]byte, 28)
+	d[0], d[1], d[3] = 0x80, 200, 6
+	d[8], d[9], d[10], d[11] = byte(ntpSec>>24), byte(ntpSec>>16), byte(ntpSec>>8), byte(ntpSec)
+	d[16], d[17], d[18], d[19] = byte(rtpTime>>24), byte(rtpTime>>16), byte(rtpTime>>8), byte(rtpTime)
+	return &Packet{Channel: ChannelVideoControl, Data: d}
+}
+
+// VerifPtsAcrossSenderReports: presentation-time differences equal RTP-timestamp differences
+// (in the stream's clock rate) whatever RTCP sender reports arrive in between, and units of
+// one RTP timestamp share one presentation time. Time stamps are drawn from concrete classes
+// (float64 arithmetic is evaluated exactly, not solved); which reports arrive, and where, is
+// symbolic.
+func VerifPtsAcrossSenderReports() {
+	w := &verifRecWriter{}
+	dp := verifNewH264(w)
+	base := []uint32{0, 90000, 0xffff0000}[symapi.Choose("rtpBase", 3)]
+	step := []uint32{3000, 3600, 90000}[symapi.Choose("step", 3)]
+	nal := []byte{0x41, 1, 2, 3}
+	srAt := [3]bool{symapi.Bool("srBeforeFirst"), symapi.Bool("srBeforeSecond"), symapi.Bool("srBeforeThird")}
+	var pts []int64
+	for i := 0; i < 3; i++ {
+		if srAt[i] {
+			// the sender's report: its RTP time is that of "now", a little ahead of the media
+			dp.Control(verifSR(0x83aa7e80+1000+uint32(i)*7, base+uint32(i)*step+450000))
+		}
+		before := len(w.frames)
+		dp.Depacketize(verifPkt(append([]byte(nil), nal...), uint16(i), base+uint32(i)*step))
+		if i == 1 { // a second unit of the same access unit (same RTP timestamp)
+			dp.Depacketize(verifPkt(append([]byte(nil), nal...), 100, base+uint32(i)*step))
+		}
+		symapi.Assert(len(w.frames) > before, "unit-emitted")
+		for _, f := range w.frames[before:] {
+			symapi.Assert(f.Pts == w.frames[before].Pts, "units-of-one-rtp-timestamp-share-one-presentation-time")
+		}
+		pts = append(pts, w.frames[before].Pts)
+	}
+	unit := float64(1e9) / 90000
+	want := int64(float64(step) * unit)
+	for i := 1; i < 3; i++ {
+		d := pts[i] - pts[i-1]
+		symapi.Assert(d >= want-1 && d <= want+1, "presentation-time-difference-equals-rtp-timestamp-difference")
+	}
+	symapi.Reach("end")
 }
